@@ -9,7 +9,7 @@ package wmpt
 // that verifies for some block number, yields the trusted root, and a value other than the true
 // owner's. Failure lines carry the tamper class first, so that known classes can be told apart.
 // property: C10
-// scope: 4 contents (2-7 keys of 32 bytes with shared prefixes, weights 1..7, in memory and after Commit at collapse levels 0/1/2); all block numbers; tamper classes: reweight-on-path-child, reweight-off-path-siblings (move 1..3 units between two children of a branch, sum kept), reweight-on-path-child-and-its-short-node-claim, reweight-short, swap-sibling-hashes, substitute-pair (from the same and from other proofs/tries), drop-pair, duplicate-pair, truncate, bit-flip (every byte, one bit)
+// scope: 6 contents (1-7 keys of 32 bytes with shared prefixes, roots that are a branch, a short node over a value and a short node over a branch; weights 1..7, in memory and after Commit at collapse levels 0/1/2); all block numbers; tamper classes: reweight-on-path-child, reweight-off-path-siblings (move 1..3 units between two children of a branch, sum kept), reweight-on-path-child-and-its-short-node-claim, reweight-short, replace-leaf-value, swap-sibling-hashes, substitute-pair (from the same and from other proofs/tries), drop-pair, duplicate-pair, truncate, bit-flip (every byte, one bit)
 
 import (
 	"bytes"
@@ -89,6 +89,9 @@ func TestGocvBoundedC10(t *testing.T) {
 		{{c10key(0x10), "a", 5}, {c10key(0x20), "b", 7}, {c10key(0x30), "c", 3}},
 		{{c10key(0x11), "a", 2}, {c10key(0x12, 0x34), "b", 3}, {c10key(0x12, 0x35), "c", 1}, {c10key(0x80), "d", 4}, {c10key(0x80, 0, 0, 1), "e", 2}},
 		{{c10key(0x01), "a", 1}, {c10key(0x02), "b", 1}, {c10key(0x03), "c", 6}, {c10key(0x03, 0x01), "d", 2}, {c10key(0xf0), "e", 7}, {c10key(0xf0, 0xf0), "f", 3}, {c10key(0xff), "g", 2}},
+		// tries whose root is not a branch: a single entry, and keys that share their first byte
+		{{c10key(0x42), "solo", 4}},
+		{{c10key(0xab, 0x01), "p", 2}, {c10key(0xab, 0x52), "q", 3}, {c10key(0xab, 0x57), "r", 2}},
 	}
 	type honest struct {
 		block uint64
@@ -270,6 +273,11 @@ func TestGocvBoundedC10(t *testing.T) {
 							}
 						}
 					}
+					if base.Value != nil {
+						nv := PersistNodeBase{Value: &PersistNodeValue{Value: []byte("mallory"), Hash: base.Value.Hash, Weight: base.Value.Weight}}
+						nr, _ := cbor.Marshal(&nv)
+						try("replace-leaf-value", hp, with(nr), fmt.Sprintf("proof element %d (value): value bytes replaced, weight and claimed hash kept", pi))
+					}
 					if base.Short != nil && len(base.Short.Value) == hashWithWeightLength {
 						for _, d := range []int64{-2, -1, 1, 2} {
 							w := int64(binary.BigEndian.Uint64(base.Short.Value[32:]))
@@ -328,7 +336,7 @@ func TestGocvBoundedC10(t *testing.T) {
 		classes = append(classes, fmt.Sprintf("%s=%d", c, n))
 	}
 	sort.Strings(classes)
-	fmt.Printf("GOCV-BOUNDED cases=%d failures=%d scope=\"4 contents x {in memory, committed at collapse 0/1/2}: honest proofs for every block; tampered proofs (reweight on/off path, reweight short, swap, substitute, drop, duplicate, truncate, bit flips) verified for every block number; failing classes: %v\"\n", cases, total, classes)
+	fmt.Printf("GOCV-BOUNDED cases=%d failures=%d scope=\"6 contents (branch, single-entry and shared-prefix roots) x {in memory, committed at collapse 0/1/2}: honest proofs for every block; tampered proofs (reweight on/off path, reweight short, replaced leaf value, swap, substitute, drop, duplicate, truncate, bit flips) verified for every block number; failing classes: %v\"\n", cases, total, classes)
 	if total > 0 {
 		t.Fail()
 	}
